@@ -23,17 +23,31 @@ objects share BY IDENTITY are recorded (harness/sharing.py).  Sharing alone is n
 continued by one edit of each shared container through one of the two objects (a `probe` step, recorded among the resolved
 steps of the replay), which makes the sharing visible to the oracle whatever the generated edits happened to touch.
 
+Stream `opaque_meta` (same machinery, `flavour: opaque`): mutable objects reachable only THROUGH IMMUTABLE containers, and
+meta-data dictionaries holding ONLY such values -- tuples / namedtuples / frozensets (of identity-hashed objects) holding
+lists or dicts, nested to two levels (`('pt', [10, 20])`, `(('a', {'k': [1]}),)`), with no plain list / dict / array beside
+them in the same histogram (mode `immutable_only`: whatever short cut a copy takes for "immutable" values is taken) -- and
+mixed dictionaries with instances of small user classes (dataclass with a list field, a frozen dataclass holding a list),
+types.SimpleNamespace, collections.deque, bytearray, set, numpy arrays, and ONE mutable object stored under two keys.
+The case file carries such values as JSON specs ({"__t": kind, "v": ...}, `decode`); edits go to the inner mutable object
+in place through the immutable wrapper (md['cuts'][1].append(30), obj.items.append, deque.append, array[...] = ...).
+Derivations through JSON only get values JSON can carry (tuples / namedtuples of lists, dicts and scalars).
+
 The Lean model's histograms carry no meta-data values (Driver: set_meta / append_meta change nothing), so these cases are
 oracle-only (`model_case` -> None)."""
 from __future__ import annotations
 
+import collections
 import copy
+import dataclasses
 import itertools
 import json
+import types
 
 import numpy as np
 
-from ..sharing import meta_containers, nested_meta_shared, path_text
+from ..sharing import (_is_mutable_container, attrs_of, follow_path, meta_containers, nested_meta_shared, path_text,
+                       stable_elems)
 
 REFUSED = "REFUSED"
 
@@ -65,6 +79,203 @@ def gen_value(rng, depth=2):
 
 
 FIXED_VALUES = [{"cuts": ["pt > 20"], "runs": [1, 2, 3]}, [{"k": [1]}, "raw"], {"a": {"b": [1, 2]}, "c": []}, [[1, 2], [3]]]
+
+
+# ------------------------------------------------------------------------------- values beyond JSON (stream opaque_meta)
+NT1 = collections.namedtuple("NT1", ["f0"])
+NT2 = collections.namedtuple("Cut", ["name", "values"])
+NT3 = collections.namedtuple("Window", ["name", "lo", "hi"])
+_NTS = {1: NT1, 2: NT2, 3: NT3}
+
+
+@dataclasses.dataclass
+class Cfg:
+    """a small user class with mutable attributes"""
+    name: str = "cfg"
+    items: list = dataclasses.field(default_factory=list)
+    opts: dict = dataclasses.field(default_factory=dict)
+
+
+@dataclasses.dataclass(eq=False)
+class Node:
+    """hashable by identity (so it can sit in a frozenset), with a list attribute"""
+    items: list = dataclasses.field(default_factory=list)
+
+
+@dataclasses.dataclass(frozen=True)
+class FrozenCfg:
+    """immutable itself, holding a list"""
+    name: str = "frozen"
+    items: list = dataclasses.field(default_factory=list)
+
+
+def decode(v):
+    """the python value a JSON spec of the case file stands for (plain JSON values stand for themselves, fresh objects)"""
+    if isinstance(v, list):
+        return [decode(x) for x in v]
+    if isinstance(v, dict):
+        if "__t" not in v:
+            return {k: decode(x) for k, x in v.items()}
+        t, a = v["__t"], v.get("v")
+        if t == "tuple":
+            return tuple(decode(x) for x in a)
+        if t == "nt":
+            items = [decode(x) for x in a]
+            return _NTS[len(items)](*items) if len(items) in _NTS else tuple(items)
+        if t == "fset":
+            return frozenset(decode(x) for x in a)
+        if t == "set":
+            return set(decode(x) for x in a)
+        if t == "deque":
+            return collections.deque(decode(x) for x in a)
+        if t == "bytes":
+            return bytearray(int(x) % 256 for x in a)
+        if t == "array":
+            return np.array(a, dtype=float)
+        if t == "ns":
+            return types.SimpleNamespace(**{k: decode(x) for k, x in a.items()})
+        if t == "dc":
+            return Cfg(**{k: decode(x) for k, x in a.items()})
+        if t == "node":
+            return Node(items=[decode(x) for x in a])
+        if t == "fdc":
+            return FrozenCfg(items=[decode(x) for x in a])
+        raise KeyError(t)
+    return v
+
+
+def T(*a):
+    return {"__t": "tuple", "v": list(a)}
+
+
+def NT(*a):
+    return {"__t": "nt", "v": list(a)}
+
+
+def _scalar(rng):
+    return rng.choice([1, 2, 10, 20, "pt", "eta", "raw", 0.5, 2.25, True, None])
+
+
+def _inner_mutable(rng, jsonable=True):
+    """a list / dict (leaves scalars, sometimes one more level) -- the object hidden inside the immutable wrapper"""
+    r = rng.random()
+    if r < 0.45:
+        return [_scalar(rng) for _ in range(rng.randint(0, 3))]
+    if r < 0.7:
+        return {k: _scalar(rng) for k in rng.sample(["k", "lo", "hi"], rng.randint(0, 2))}
+    if r < 0.85:
+        return {"k": [_scalar(rng) for _ in range(rng.randint(1, 2))]}
+    return [[_scalar(rng)], _scalar(rng)]
+
+
+def gen_wrapped(rng, jsonable=False):
+    """an IMMUTABLE top-level value (tuple / namedtuple / frozenset) holding mutable objects, nested up to two levels"""
+    r = rng.random()
+    if r < 0.22:
+        return T(rng.choice(["pt", "eta"]), _inner_mutable(rng))                         # ('pt', [10, 20])
+    if r < 0.40:
+        return T(T(rng.choice("ab"), _inner_mutable(rng)))                                # (('a', {'k': [1]}),)
+    if r < 0.52:
+        return NT(rng.choice(["pt", "eta"]), _inner_mutable(rng))                         # Cut(name='pt', values=[...])
+    if r < 0.62:
+        return T(NT("w", _inner_mutable(rng), _inner_mutable(rng)), _scalar(rng))         # (Window('w', [...], {...}), 1)
+    if r < 0.70:
+        return T(_inner_mutable(rng), _inner_mutable(rng), T())                           # ([..], {..}, ())
+    if jsonable:
+        return T(_scalar(rng), T(_scalar(rng), T(_inner_mutable(rng))))
+    if r < 0.82:
+        # a frozenset: its elements must be hashable -- tuples of scalars and identity-hashed objects holding a list
+        n = rng.randint(1, 2)
+        return {"__t": "fset", "v": [{"__t": "node", "v": [_scalar(rng) for _ in range(1 + i)]} for i in range(n)]
+                + ([T("a", 1)] if rng.random() < 0.5 else [])}
+    if r < 0.90:
+        return T("objs", {"__t": "fset", "v": [{"__t": "node", "v": [[1], 2]}]}, _inner_mutable(rng))
+    # a tuple holding one of the other mutable kinds
+    return T(rng.choice(["d", "x"]), gen_exotic(rng, depth=0))
+
+
+def gen_exotic(rng, depth=1):
+    """a mutable object that is neither list nor dict: user classes, SimpleNamespace, deque, bytearray, set, ndarray"""
+    def inner():
+        return _inner_mutable(rng) if depth > 0 and rng.random() < 0.7 else [_scalar(rng) for _ in range(rng.randint(0, 2))]
+    k = rng.choice(["dc", "dc", "ns", "ns", "deque", "deque", "bytes", "set", "array", "array", "fdc", "node"])
+    if k == "dc":
+        return {"__t": "dc", "v": {"name": rng.choice(["c", "cfg"]), "items": inner(), "opts": {"k": inner()} if rng.random() < 0.5 else {}}}
+    if k == "ns":
+        return {"__t": "ns", "v": {"x": inner(), "y": _scalar(rng), **({"z": T("t", inner())} if rng.random() < 0.4 else {})}}
+    if k == "deque":
+        return {"__t": "deque", "v": [_scalar(rng), inner()] if rng.random() < 0.6 else [_scalar(rng) for _ in range(rng.randint(0, 3))]}
+    if k == "bytes":
+        return {"__t": "bytes", "v": [rng.randint(0, 255) for _ in range(rng.randint(0, 4))]}
+    if k == "set":
+        return {"__t": "set", "v": sorted(set(rng.choice([1, 2, 3, 20]) for _ in range(rng.randint(0, 3)))) + ([T("a", 1)] if rng.random() < 0.3 else [])}
+    if k == "array":
+        return {"__t": "array", "v": rng.choice([[1.0, 2.0, 3.0], [[1.0, 2.0], [3.0, 4.0]], [0.5]])}
+    if k == "fdc":
+        return {"__t": "fdc", "v": inner()}
+    return {"__t": "node", "v": inner()}
+
+
+def _has_kind(v, kinds):
+    if isinstance(v, list):
+        return any(_has_kind(x, kinds) for x in v)
+    if isinstance(v, dict):
+        if v.get("__t") in kinds:
+            return True
+        return any(_has_kind(x, kinds) for x in (v.values() if "__t" not in v else [v.get("v")]))
+    return False
+
+
+def _kinds(v, out=None):
+    out = set() if out is None else out
+    if isinstance(v, list):
+        out.add("list")
+        for x in v:
+            _kinds(x, out)
+    elif isinstance(v, dict):
+        if "__t" in v:
+            out.add(v["__t"])
+            _kinds(v.get("v"), out) if v["__t"] not in ("bytes", "array") else None
+        else:
+            out.add("dict")
+            for x in v.values():
+                _kinds(x, out)
+    return out
+
+
+def gen_opaque_meta(rng, mode, jsonable, no_arrays):
+    """the setup entries of an opaque_meta case"""
+    meta = []
+    keys = rng.sample(KEYS, rng.choice([1, 1, 2, 3]))
+    for n, key in enumerate(keys):
+        if jsonable:
+            v = gen_wrapped(rng, jsonable=True) if (mode == "immutable_only" or rng.random() < 0.6) else [gen_wrapped(rng, jsonable=True)]
+        elif mode == "immutable_only":
+            v = gen_wrapped(rng) if (n == 0 or rng.random() < 0.8) else rng.choice(["plain", 3, 2.5, None, True])
+            if _has_kind(v, ("array", "dc", "ns", "deque", "bytes", "set", "fdc")) and rng.random() < 0.5:
+                v = gen_wrapped(rng, jsonable=True)          # (keep the plainest shapes -- tuples of lists -- frequent)
+        else:
+            r = rng.random()
+            if r < 0.45:
+                v = gen_exotic(rng)
+            elif r < 0.6:
+                v = gen_wrapped(rng)
+            elif r < 0.75:
+                v = [gen_exotic(rng, depth=0), _scalar(rng)] if rng.random() < 0.5 else {"o": gen_exotic(rng, depth=0)}
+            elif r < 0.9:
+                v = gen_value(rng)
+            else:
+                v = _scalar(rng)
+        if no_arrays:
+            while _has_kind(v, ("array",)):
+                v = gen_wrapped(rng, jsonable=True)
+        meta.append({"set": "entry", "key": key, "value": v})
+    if not jsonable or rng.random() < 0.5:
+        spare = [k for k in KEYS if k not in keys]
+        if spare and rng.random() < (0.25 if mode == "immutable_only" else 0.45):
+            # the same object under a second key
+            meta.append({"set": "entry", "key": spare[0], "alias": keys[0]})
+    return meta
 
 
 def gen_points(rng):
@@ -139,20 +350,38 @@ def gen_edit(rng, on, cls, member=None):
     return e
 
 
-def gen(rng, cls=None, deriv=None):
+COPY_BASED = ("copy", "copy0", "mul", "rmul", "div", "normalize", "merge", "T", "accumulate", "partial_normalize", "coll_copy")
+
+
+def gen(rng, cls=None, deriv=None, flavour=None, mode=None):
     cls = cls or rng.choice(CLASSES + ("collection", "collection", "h2", "h3"))
     pts = gen_points(rng)
+    dv = copy.deepcopy(deriv) if deriv is not None else rng.choice(derivations(cls))
+    if flavour == "opaque" and deriv is None and dv["d"] not in COPY_BASED and rng.random() < 0.35:
+        # (keep the derivations that duplicate the meta data of their source a little more frequent than the rest)
+        pool = [d for d in derivations(cls) if d["d"] in COPY_BASED]
+        dv = copy.deepcopy(rng.choice(pool)) if pool else dv
     meta = []
-    for key in rng.sample(KEYS, rng.choice([1, 1, 2, 3])):
-        meta.append({"set": "entry", "key": key, "value": rng.choice(FIXED_VALUES) if rng.random() < 0.35 else gen_value(rng)})
+    if flavour == "opaque":
+        mode = mode or rng.choice(["immutable_only", "mixed"])
+        meta = gen_opaque_meta(rng, mode, jsonable=(dv["d"] == "json"), no_arrays=(dv["d"] in ("add", "sub", "coll_sum", "coll_normalize_bins")))
+    else:
+        for key in rng.sample(KEYS, rng.choice([1, 1, 2, 3])):
+            meta.append({"set": "entry", "key": key, "value": rng.choice(FIXED_VALUES) if rng.random() < 0.35 else gen_value(rng)})
     if rng.random() < 0.5:
         meta.append({"set": "title", "value": rng.choice(["A title", "t"])})
     if rng.random() < 0.3:
         meta.append({"set": "name", "value": rng.choice(["src", "n"])})
     if cls in PLAIN and rng.random() < 0.3:
         meta.append({"set": "axis_names", "value": [f"ax{i}" for i in range(NDIM[cls])]})
-    rng.shuffle(meta)
-    dv = copy.deepcopy(deriv) if deriv is not None else rng.choice(derivations(cls))
+    if flavour == "opaque":
+        # (an alias entry stays behind the entry it points to)
+        al = [m for m in meta if "alias" in m]
+        meta = [m for m in meta if "alias" not in m]
+        rng.shuffle(meta)
+        meta += al
+    else:
+        rng.shuffle(meta)
     case = {"kind": "metanest", "sub": "metanest", "source": {"cls": cls, "points": pts}, "meta": meta, "deriv": dv}
     if dv["d"] in ("add", "sub"):
         case["source"]["other_meta"] = rng.choice(["same", "same", "differs", "none"])
@@ -165,7 +394,29 @@ def gen(rng, cls=None, deriv=None):
     case["edits"] = [gen_edit(rng, t, cls, member=(rng.choice([None, 0, 0, nmem - 1]) if cls == "collection" else None))
                      for t in targets]
     case["tags"] = ["stream:nested_meta", "meta_class:" + cls, "meta_deriv:" + deriv_label(dv)]
+    if flavour == "opaque":
+        case["flavour"] = "opaque"
+        for e in case["edits"]:
+            if "pick" not in e and rng.random() < 0.6:      # mostly edits INSIDE the values
+                keep = {k: e[k] for k in ("on", "member") if k in e}
+                e.clear()
+                e.update(keep)
+                e.update({"pick": rng.randrange(12), "list_edit": rng.choice(LIST_EDITS), "dict_edit": rng.choice(DICT_EDITS),
+                          "arg": rng.choice(["edited", 7, [9], {"z": [0]}])})
+        case["tags"] = opaque_tags(case, mode)
     return case
+
+
+def opaque_tags(case, mode):
+    dv, cls = case["deriv"], case["source"]["cls"]
+    kinds = set()
+    for m in case["meta"]:
+        if "alias" in m:
+            kinds.add("alias")
+        elif m["set"] == "entry":
+            _kinds(m["value"], kinds)
+    return (["stream:opaque_meta", "meta_class:" + cls, "meta_deriv:" + deriv_label(dv), "meta_mode:" + mode]
+            + ["meta_value:" + k for k in sorted(kinds)])
 
 
 def exhaustive(tier):
@@ -194,6 +445,30 @@ def exhaustive(tier):
                         core.append(e)
                 c["edits"] = core + c["edits"][:2]
                 c["tags"] = c["tags"] + ["nested_meta:enumerated"]
+                out.append(c)
+            # the same pair with values hidden inside immutable wrappers, and nothing else in the dictionary
+            for rep in range(reps):
+                rng = Rng(f"c12-opaque-meta:{cls}:{json.dumps(dv, sort_keys=True)}:{rep}")
+                mode = "immutable_only" if rep % 2 == 0 else "mixed"
+                c = gen(rng, cls=cls, deriv=dv, flavour="opaque", mode=mode)
+                if mode == "immutable_only":
+                    if dv["d"] == "json" or (n + rep) % 2 == 0:
+                        core = [{"set": "entry", "key": "sel", "value": T("pt", [10, 20])},
+                                {"set": "entry", "key": "tags", "value": T(T("a", {"k": [1]}))}]
+                    else:
+                        core = [{"set": "entry", "key": "sel", "value": NT("pt", [10, 20])},
+                                {"set": "entry", "key": "tags", "value": {"__t": "fset", "v": [{"__t": "node", "v": [1, 2]}, T("a", 1)]}}]
+                    c["meta"] = core + [m for m in c["meta"] if m.get("key") not in ("sel", "tags") and m.get("alias") not in ("sel", "tags")]
+                member = 0 if cls == "collection" else None
+                core = []
+                for on in (("src", "res") if (n + rep) % 2 == 0 else ("res", "src")):
+                    for pick, le, de in ((0, "append", "setitem_new"), (1, "setitem", "update"), (2, "del", "del"), (3, "append", "setitem_old")):
+                        e = {"on": on, "pick": pick, "list_edit": le, "dict_edit": de, "arg": "edited"}
+                        if member is not None:
+                            e["member"] = member
+                        core.append(e)
+                c["edits"] = core + c["edits"][:2]
+                c["tags"] = opaque_tags(c, mode) + ["opaque_meta:enumerated"]
                 out.append(c)
             n += 1
     return out
@@ -257,17 +532,43 @@ def _nums(a):
 
 def canon(v):
     """a deep, detached, comparable and JSON-able picture of a meta-data value"""
+    return _canon(v, ())
+
+
+def _canon(v, stack):
+    if id(v) in stack:
+        return "<cycle>"
     if isinstance(v, dict):
-        return {"dict": [[repr(k), canon(v[k])] for k in sorted(v, key=repr)]}
+        st = stack + (id(v),)
+        return {"dict": [[repr(k), _canon(v[k], st)] for k in sorted(v, key=repr)]}
     if isinstance(v, list):
-        return {"list": [canon(x) for x in v]}
+        st = stack + (id(v),)
+        return {"list": [_canon(x, st) for x in v]}
     if isinstance(v, tuple):
-        return {"tuple": [canon(x) for x in v]}
+        st = stack + (id(v),)
+        if hasattr(type(v), "_fields"):                     # a namedtuple: the class and the field names belong to the value
+            return {"tuple": [_canon(x, st) for x in v], "namedtuple": type(v).__name__, "fields": list(type(v)._fields)}
+        return {"tuple": [_canon(x, st) for x in v]}
     if isinstance(v, (set, frozenset)):
-        return {"set": sorted(repr(x) for x in v)}
+        st = stack + (id(v),)
+        items = [_canon(x, st) for x in v]
+        # order-stable: by the JSON text of the deep picture (no hashes, no addresses)
+        return {("frozenset" if isinstance(v, frozenset) else "set"): sorted(items, key=lambda c: json.dumps(c, sort_keys=True, default=str))}
+    if isinstance(v, collections.deque):
+        st = stack + (id(v),)
+        return {"deque": [_canon(x, st) for x in v], "maxlen": repr(v.maxlen)}
+    if isinstance(v, (bytearray, bytes)):
+        return {type(v).__name__: list(v)}
     if isinstance(v, np.ndarray):
+        if v.dtype == object:
+            return {"array": [_canon(x, stack + (id(v),)) for x in v.ravel().tolist()], "dtype": "object", "shape": list(v.shape)}
         return {"array": _nums(v), "dtype": str(v.dtype), "shape": list(v.shape)}
-    return repr(v)
+    attrs = attrs_of(v)
+    if attrs is not None:
+        st = stack + (id(v),)
+        return {"object": type(v).__name__, "attrs": [[repr(k), _canon(attrs[k], st)] for k in sorted(attrs, key=repr)]}
+    r = repr(v)
+    return r if " at 0x" not in r else f"<{type(v).__name__}>"
 
 
 def snap(o):
@@ -382,7 +683,10 @@ def apply_setup(o, m):
     for t in targets:
         if m["set"] == "entry":
             if not is_collection(t):
-                t.meta_data[m["key"]] = copy.deepcopy(m["value"])
+                if "alias" in m:                # the SAME object under a second key (a fresh list when the first is absent)
+                    t.meta_data[m["key"]] = t.meta_data[m["alias"]] if m["alias"] in t.meta_data else ["alias"]
+                else:
+                    t.meta_data[m["key"]] = decode(copy.deepcopy(m["value"]))
         elif m["set"] == "title":
             t.title = m["value"]
         elif m["set"] == "name":
@@ -406,10 +710,7 @@ def resolve_target(e, objs):
 
 
 def follow(md, path):
-    v = md
-    for p in path:
-        v = v[p]
-    return v
+    return follow_path(md, path)
 
 
 def edit_container(c, e, resolved):
@@ -418,7 +719,7 @@ def edit_container(c, e, resolved):
     if isinstance(c, list):
         kind = e.get("list_edit", "append")
         if kind == "inner":          # one level further down, when there is a container there
-            inner = [x for x in c if isinstance(x, (list, dict))]
+            inner = [x for x in c if _is_mutable_container(x)]
             if inner:
                 resolved["descend"] = True
                 return edit_container(inner[0], dict(e, list_edit="append", dict_edit="setitem_new"), resolved)
@@ -447,7 +748,7 @@ def edit_container(c, e, resolved):
     if isinstance(c, dict):
         kind = e.get("dict_edit", "setitem_new")
         if kind == "inner":
-            inner = [c[k] for k in sorted(c, key=repr) if isinstance(c[k], (list, dict))]
+            inner = [c[k] for k in sorted(c, key=repr) if _is_mutable_container(c[k])]
             if inner:
                 resolved["descend"] = True
                 return edit_container(inner[0], dict(e, list_edit="append", dict_edit="setitem_new"), resolved)
@@ -476,13 +777,108 @@ def edit_container(c, e, resolved):
             else:
                 c["edited"] = arg
         return
-    if isinstance(c, set):
-        resolved["action"] = "set.add"
-        c.add("edited")
+    if isinstance(c, collections.deque):
+        kind = e.get("list_edit", "append")
+        if kind == "inner":
+            inner = [x for x in c if _is_mutable_container(x)]
+            if inner:
+                resolved["descend"] = True
+                return edit_container(inner[0], dict(e, list_edit="append", dict_edit="setitem_new"), resolved)
+            kind = "append"
+        if kind in ("setitem", "del", "pop", "clear") and not c:
+            kind = "append"
+        resolved["action"] = "deque." + {"insert": "appendleft"}.get(kind, kind)
+        if kind == "append":
+            c.append(arg)
+        elif kind == "setitem":
+            c[len(c) // 2] = arg
+        elif kind == "del":
+            del c[0]
+        elif kind == "insert":
+            c.appendleft(arg)
+        elif kind == "extend":
+            c.extend([arg, "more"])
+        elif kind == "pop":
+            c.pop()
+        else:
+            c.clear()
         return
-    if isinstance(c, np.ndarray) and c.size:
-        resolved["action"] = "array.flat[0] += 1"
-        c.flat[0] = c.flat[0] + 1
+    if isinstance(c, bytearray):
+        kind = e.get("list_edit", "append")
+        if kind in ("setitem", "del", "pop", "clear", "inner") and not c:
+            kind = "append"
+        resolved["action"] = "bytearray." + kind
+        if kind == "setitem" or kind == "inner":
+            c[0] = (c[0] + 1) % 256
+        elif kind == "del":
+            del c[0]
+        elif kind == "insert":
+            c.insert(0, 7)
+        elif kind == "extend":
+            c.extend(b"ab")
+        elif kind == "pop":
+            c.pop()
+        elif kind == "clear":
+            c.clear()
+        else:
+            c.append(7)
+        return
+    if isinstance(c, set):
+        kind = e.get("list_edit", "append")
+        if kind in ("del", "pop", "clear") and not c:
+            kind = "append"
+        if kind in ("del", "pop"):
+            resolved["action"] = "set.remove"
+            c.remove(stable_elems(c)[0])
+        elif kind == "clear":
+            resolved["action"] = "set.clear"
+            c.clear()
+        elif kind == "extend":
+            resolved["action"] = "set.update"
+            c.update({"edited", ("more", len(c))})
+        else:
+            resolved["action"] = "set.add"
+            c.add(("edited", len(c)))
+        return
+    if isinstance(c, np.ndarray):
+        if not c.size or not c.flags.writeable:
+            resolved["action"] = "none"
+            return
+        kind = e.get("list_edit", "append")
+        if kind in ("setitem", "clear", "del"):
+            resolved["action"] = "array[...] = array + 1"
+            c[...] = c + 1
+        else:
+            resolved["action"] = "array.flat[0] += 1"
+            c.flat[0] = c.flat[0] + 1
+        return
+    attrs = attrs_of(c)
+    if attrs is not None:
+        # an instance of a small user class / a SimpleNamespace: attribute assignment is its in-place edit
+        kind = e.get("dict_edit", "setitem_new")
+        if kind == "inner":
+            inner = [attrs[k] for k in sorted(attrs, key=repr) if _is_mutable_container(attrs[k])]
+            if inner:
+                resolved["descend"] = True
+                return edit_container(inner[0], dict(e, list_edit="append", dict_edit="setitem_new"), resolved)
+            kind = "setitem_new"
+        first = sorted(attrs, key=repr)[0] if attrs else None
+        if kind in ("del", "pop", "clear") and not isinstance(c, types.SimpleNamespace):
+            kind = "setitem_old"          # (a dataclass instance without one of its fields cannot even print itself)
+        if first is None and kind != "setitem_new":
+            kind = "setitem_new"
+        if kind in ("setitem_new", "setdefault", "update"):
+            resolved["action"] = "object.setattr_new"
+            setattr(c, "edited", arg)
+        elif kind == "setitem_old":
+            resolved["action"] = "object.setattr_old"
+            setattr(c, first, [arg])
+        elif kind in ("del", "pop"):
+            resolved["action"] = "object.delattr"
+            delattr(c, first)
+        else:
+            resolved["action"] = "object.__dict__.clear"
+            attrs.clear()
         return
     resolved["action"] = "none"
 
@@ -566,8 +962,8 @@ def run_impl(case):
         how = src_spec.get("other_meta", "none")
         if objs["oth"] is not None and how != "none":
             m2 = copy.deepcopy(m)
-            if how == "differs" and m["set"] == "entry" and m["key"] in KEYS[::2]:
-                m2["value"] = [m2["value"], "other"]
+            if how == "differs" and m["set"] == "entry" and m["key"] in KEYS[::2] and "value" in m:
+                m2["value"] = [m2["value"], "other"] if case.get("flavour") != "opaque" else {"__t": "tuple", "v": [m2["value"], "other"]}
             apply_setup(objs["oth"], m2)
     record({"setup": len(case["meta"])}, "ok", ["src", "oth"] + [f"src.{i}" for i in range(8)])
     try:
@@ -663,9 +1059,19 @@ def pretty(c):
         if "list" in c:
             return "[" + ", ".join(pretty(v) for v in c["list"]) + "]"
         if "tuple" in c:
-            return "(" + ", ".join(pretty(v) for v in c["tuple"]) + ("," if len(c["tuple"]) == 1 else "") + ")"
+            return c.get("namedtuple", "") + "(" + ", ".join(pretty(v) for v in c["tuple"]) + ("," if len(c["tuple"]) == 1 else "") + ")"
         if "set" in c:
-            return "{" + ", ".join(c["set"]) + "}"
+            return "{" + ", ".join(pretty(v) for v in c["set"]) + "}"
+        if "frozenset" in c:
+            return "frozenset({" + ", ".join(pretty(v) for v in c["frozenset"]) + "})"
+        if "deque" in c:
+            return "deque([" + ", ".join(pretty(v) for v in c["deque"]) + "])"
+        if "object" in c:
+            return c["object"] + "(" + ", ".join(f"{k.strip(chr(39))}={pretty(v)}" for k, v in c["attrs"]) + ")"
+        if "bytearray" in c:
+            return "bytearray(" + repr(bytes(c["bytearray"])) + ")"
+        if "array" in c:
+            return "array(" + ", ".join(str(x) for x in c["array"]) + ")"
         return json.dumps(c, default=str)
     if isinstance(c, list):
         return "[" + ", ".join(pretty(v) for v in c) + "]"
@@ -745,8 +1151,9 @@ def shrink_candidates(case):
         c["source"]["points"] = pts[:max(1, len(pts) // 2)]
         yield c
     for k, m in enumerate(case["meta"]):
-        if m["set"] == "entry" and m["value"] not in ([[1]], {"a": [1]}):
-            for simple in ([[1]], {"a": [1]}):
+        if m["set"] == "entry" and "value" in m and m["value"] not in ([[1]], {"a": [1]}, T("pt", [10, 20])):
+            typed = _has_kind(m["value"], ("tuple", "nt", "fset", "set", "deque", "bytes", "array", "ns", "dc", "node", "fdc"))
+            for simple in (([T("pt", [10, 20])] if typed else []) + [[[1]], {"a": [1]}]):
                 c = copy.deepcopy(case)
                 c["meta"][k]["value"] = simple
                 yield c
